@@ -105,6 +105,7 @@ let run (id : string) (hdr : string list) (lines : string list list) (out : stri
       | ["stale"] :: r -> do_ev EStale; go r
       | ["cleanconn"; c] :: r -> do_ev (ECleanConn (ni c)); go r
       | ["shutdown"] :: r -> do_ev EShutdown; go r
+      | ["shutdown"; "expired"] :: r -> do_ev EShutdown; go r   (* the context does not matter for the outcome *)
       | ["failnext"] :: r -> do_ev EFailNext; go r
       | ["oneshot"; c; kind; k; v] :: r ->
         (* a BatchWrite of the service: ok / del carry the one operation put K V / delete K (with the
